@@ -6,6 +6,7 @@ from xdsl.dialects.memref import DeallocOp
 from xdsl.ir import Block, Operation, OpResult, SSAValue, Use
 from xdsl.passes import ModulePass
 from xdsl.rewriter import InsertPoint, Rewriter
+from xdsl.traits import IsTerminator, is_side_effect_free
 
 from snaxc.accelerators.acc_context import AccContext
 from snaxc.dialects import snax
@@ -15,6 +16,15 @@ from snaxc.util.dispatching_rules import dispatch_to_compute, dispatch_to_dm
 def is_view_op(op: Operation) -> bool:
     """Operations that produce another view on the memory of their first operand."""
     return isinstance(op, memref.SubviewOp | memref.CastOp | memref.MemorySpaceCastOp | snax.LayoutCast)
+
+
+def may_access_buffers(op: Operation, ctx: AccContext) -> bool:
+    """Operations that are executed by every core and may read or write the buffers they are given."""
+    if dispatch_to_dm(op, ctx) or dispatch_to_compute(op, ctx) or is_view_op(op):
+        return False
+    if isinstance(op, DeallocOp | snax.ClusterSyncOp) or op.regions or op.has_trait(IsTerminator):
+        return False
+    return not is_side_effect_free(op)
 
 
 def get_view_source(value: SSAValue) -> SSAValue:
@@ -127,6 +137,19 @@ class InsertSyncBarrier(ModulePass):
                     if dispatch_to_compute(op_in_module, ctx) and not dispatch_to_compute(op_use.operation, ctx):
                         ops_to_sync.append(op_use.operation)
                         # the two ops meet again in the next iteration of every loop they share
+                        if (for_op := get_common_for_op(op_in_module, op_use.operation)) is not None:
+                            assert isinstance(for_op.body.block.last_op, scf.YieldOp)
+                            ops_to_sync.append(for_op.body.block.last_op)
+
+                    # an operation that every core executes and that may look into the buffer (a call, an unknown
+                    # operation): a later operation of one core on that buffer has to wait for all of them
+                    if (
+                        may_access_buffers(op_in_module, ctx)
+                        and isinstance(operand.type, builtin.MemRefType)
+                        and operand in op_in_module.operands
+                        and (dispatch_to_dm(op_use.operation, ctx) or dispatch_to_compute(op_use.operation, ctx))
+                    ):
+                        ops_to_sync.append(op_use.operation)
                         if (for_op := get_common_for_op(op_in_module, op_use.operation)) is not None:
                             assert isinstance(for_op.body.block.last_op, scf.YieldOp)
                             ops_to_sync.append(for_op.body.block.last_op)
